@@ -189,7 +189,14 @@ func (am AppModule) EndBlock(ctx sdk.Context, _ abci.RequestEndBlock) []abci.Val
 	// TODO: for v1 use mode==1, just check the failed feeders
 	_, failed, sealed := agc.SealRound(ctx, forceSeal)
 	for _, feederID := range sealed {
-		am.keeper.RemoveNonceWithFeederIDForValidators(ctx, feederID, agc.GetValidators())
+		if forceSeal {
+			// the validator set changed: validators that left the set must not keep their nonces
+			// for the sealed round (they could still get fee-less transactions admitted with them),
+			// so remove the nonces of this feeder from everyone who holds one.
+			am.keeper.RemoveNonceWithFeederIDForAll(ctx, feederID)
+		} else {
+			am.keeper.RemoveNonceWithFeederIDForValidators(ctx, feederID, agc.GetValidators())
+		}
 	}
 	// append new round with previous price for fail-seal token
 	for _, tokenID := range failed {
